@@ -316,7 +316,16 @@ def shrink(case):
     return iter(())
 
 
-KNOWN_PREDICATES = {}
+def _slashes_in_block(case, f):
+    """a block comment whose text contains the line-comment marker: line comments are lifted out first, also inside a block
+    comment, and never put back there (recorded finding; Properties/C12.v C12_finding_slashes_in_block_comment)"""
+    import re as _re
+
+    return any(_re.search(r"(?<!:)//", t[2][2:]) for t in case.get("block_comments", [])) and f["symptom"] in (
+        "block-comments", "line-comments", "output-malformed", "raises", "data", "off-data", "header")
+
+
+KNOWN_PREDICATES = {"C12-line-comment-marker-inside-block-comment": _slashes_in_block}
 
 
 def mk_case(s: Src) -> dict:
@@ -331,6 +340,13 @@ def run(ctx):
     for i in range(ctx.n(500, 12000)):
         s = gen_source(rng, hazardous=(i % 4 != 0))
         cases.append((mk_case(s), s.nontrivial or s.first_block_nested))
+    # the recorded finding, re-established on every run: a block comment (on lines of its own, at a statement boundary)
+    # whose text contains the line-comment marker
+    for txt in ("/* see a // b\n */", "/* 1 // 2 */"):
+        ps = Src()
+        ps.lines = ["a  1;", txt, "d", "{", "    b  2;", "}"]
+        ps.block_comments = [(0, 0, txt)]
+        cases.append((mk_case(ps), True))
     if ctx.tier == "thorough":
         import itertools
 
